@@ -176,7 +176,21 @@ func runC02(ctx *report.Ctx) {
 			e = yc.EBinary(op, literalOperands[c.Choose(len(literalOperands), "left")](), literalOperands[c.Choose(len(literalOperands), "right")]())
 		} else {
 			in := literalOperands[c.Choose(len(literalOperands), "operand")]()
-			switch c.Choose(4, "unary") {
+			// (the conversion built-ins are modelled on operands of their own type only)
+			num, boo := in, in
+			if in.K == yc.EStr || in.K == yc.EBool {
+				num = yc.ENumber(5)
+			}
+			if in.K != yc.EBool {
+				boo = yc.EBoolean(true)
+			}
+			switch c.Choose(7, "unary") {
+			case 4: // a conversion built-in that hands back its argument when it already has the type, negated
+				e = yc.ENegate(yc.ECallOf("number", num))
+			case 5:
+				e = yc.ENotOf(yc.ECallOf("bool", boo))
+			case 6:
+				e = yc.EBinary("+", yc.ENumber(10), yc.EBinary("*", yc.ENegate(yc.ECallOf("number", num)), yc.ENumber(2)))
 			case 0:
 				e = yc.ENegate(in)
 			case 1:
